@@ -36,6 +36,12 @@ def _simplex(rng, n, positive=False):
     out = [0.0] * n
     for i, p in zip(idx, G.rand_probs(rng, k)):
         out[i] = p
+    if k >= 2 and rng.random() < 0.15:
+        # a lapse-sized entry (an action / node taken once in 1e5 ... 1e9 times): exact floats d and (p - d)
+        d = rng.choice([1e-5, 1e-7, 1e-9])
+        i_small, i_big = idx[0], idx[1]
+        out[i_big] = out[i_big] + (out[i_small] - d)
+        out[i_small] = d
     return out
 
 
